@@ -183,6 +183,33 @@ Proof.
   apply wp_bind. apply wp_cbd_eq. apply wp_ret. simp_w. split; reflexivity.
 Qed.
 
+Lemma unwind_args_lawful k v w :
+  wp (unwind_args E k v)
+     (fun _ w' => self w' = self w /\ logged w w' (ev_drops (idV E v ++ idK E k)))
+     (fun _ => False) w.
+Proof.
+  unfold unwind_args. apply wp_bind. apply wp_emit. apply wp_bind. apply wp_cbd_eq.
+  apply wp_bind. apply wp_cbd_eq. apply wp_ret. simp_w. split; reflexivity.
+Qed.
+Lemma unwind_val_lawful v w :
+  wp (unwind_val E v)
+     (fun _ w' => self w' = self w /\ logged w w' (ev_drops (idV E v)))
+     (fun _ => False) w.
+Proof.
+  unfold unwind_val. apply wp_bind. apply wp_emit. apply wp_bind. apply wp_cbd_eq.
+  apply wp_ret. simp_w. split; reflexivity.
+Qed.
+(* two parameters going out of scope: the value first, then the key *)
+Lemma drop_args_lawful k v w :
+  wp (drop_args E k v)
+     (fun _ w' => self w' = self w /\ logged w w' (ev_drops (idV E v ++ idK E k)))
+     (fun _ => False) w.
+Proof.
+  unfold drop_args. apply wp_bind. apply wp_emit. apply wp_bind. apply wp_cbd_eq.
+  rewrite (law_dropV E ck cq HL). apply wp_bind. apply wp_cbd_eq.
+  rewrite (law_dropK E ck cq HL). cbn [orb]. apply wp_ret. simp_w. split; reflexivity.
+Qed.
+
 (* ---- lookups ---- *)
 Lemma get_lawful q w :
   WF (self w) ->
